@@ -67,7 +67,7 @@ def c01(ck, tier, seed):
                       "re-derived by every binary operator, interleaved with drop/gc/add_vars/set_var_order; seeded random "
                       "histories over 2..7 variables; non-trivial = result is neither an operand nor a constant")
     vlib.ensure_tables()
-    plan = _tables_plan(tier, seed, "bool") + _hist_plan(tier, seed, quick_count=40) + _churn_plan(tier, seed)
+    plan = _tables_plan(tier, seed, "bool,restrict,zbdd") + _hist_plan(tier, seed, quick_count=40) + _churn_plan(tier, seed)
     _bool_suite(ck, ["C01"], plan)
     ck.assumptions += ["denotation of a handle = DDSem!SemMap of the logged sub-graph (node-by-node interpretation in TLA+)",
                        "MTBDD/TDD and pointer backend canonicity are exercised by C10/C11/C20"]
@@ -90,7 +90,7 @@ def c03(ck, tier, seed):
                       "drop-all); invariants Ordered, Reduced(kind), NoDupPerLevel, InOwnLevel, VarLevelInverse, "
                       "node_count = CanonSize (semantic definition, n <= 5)")
     vlib.ensure_tables()
-    plan = _tables_plan(tier, seed, "bool") + _hist_plan(tier, seed, quick_count=40) + _churn_plan(tier, seed)
+    plan = _tables_plan(tier, seed, "bool,restrict,zbdd") + _hist_plan(tier, seed, quick_count=40) + _churn_plan(tier, seed)
     plan += [("reorder", {"kind": k, "seed": seed * 13 + i, "tier": tier}) for i, k in enumerate(BOOL_KINDS)]
     _bool_suite(ck, ["C03"], plan)
     store_mc(ck, tier)
@@ -114,14 +114,64 @@ def c05(ck, tier, seed):
     # automatic background collections: small capacities, garbage pushed across the high-water mark
     plan += [("bggc", {"kind": k, "seed": seed * 23 + i, "tier": tier}) for i, k in enumerate(BOOL_KINDS)]
     plan += _churn_plan(tier, seed)
+    # capacity probe: after build / drop / gc / single-node operations, drop everything, collect, and fill the manager
+    # with one-node operations: it must hold exactly as many nodes as when it was fresh (capacities 64..512)
+    plan += [("capprobe", {"kind": k, "seed": seed * 29 + i, "tier": tier}) for i, k in enumerate(BOOL_KINDS)]
     _bool_suite(ck, ["C05"], plan)
     # MTBDD / TDD: after every collection exactly the reachable inner nodes and (MTBDD) the terminals in use remain
     import chk_mv
     for drv in ["mtbdd", "tdd"]:
         chk_mv._run(ck, drv, ["C05"], tier, seed + 7)
+    # beyond the property: the collector thread protocol (GcThread.tla, repaired variant) and, for information, the
+    # replay of its counterexample schedule on the real manager (threads still alive after dropping managers)
+    for cfg in ["MC_GcThread_quitcheck1", "MC_GcThread_quitcheck_seq3"]:
+        ck.add_mc(vlib.model_check("GcThread", cfg, workers=2, xmx="2g", timeout=300),
+                  must_cover=["ColWait", "ColCheck", "DropLock"])
+    try:
+        res = vlib.run_driver(vlib.build_harness(), "gcthread", {"count": 60 if tier == "quick" else 400},
+                              os.path.join(ck.outdir, "gcthread"), timeout=300)
+        ck.cov["gcthread_probe"] = res["summaries"][0].get("extra", {}) if res["summaries"] else {}
+    except vlib.ToolError as e:
+        ck.cov["gcthread_probe"] = {"error": str(e)[:200]}
     ck.cov["background_collections_seen"] = sum(
         s.get("extra", {}).get("bg_collections_seen", 0) for s in getattr(ck, "_summaries", []))
     store_mc(ck, tier)
+
+
+def _bubble_binding(ck, files):
+    """V binding of BubbleSort.tla: the level sort inside every recorded set_var_order call (input sequence, swap
+    begin/end events, return; hook oxidd_reorder::verif) must be a behaviour of the specification: of the
+    transcription of concurrent_bubble_sort with its critical sections as silent steps, or exactly the swap
+    sequence of the sequential bubble_sort"""
+    per_kind = {}
+    for f in files:
+        per_kind.setdefault(os.path.basename(os.path.dirname(f)), []).append(f)
+    total = {"sorts": 0, "concurrent": 0, "swaps": 0, "skipped_long": 0}
+    for d, fs in sorted(per_kind.items()):
+        path = os.path.join(ck.outdir, "bubble-%s.ndjson" % d)
+        st = vlib.bubble_trace(fs, path)
+        for k in total:
+            total[k] += st[k]
+        if st["sorts"] == 0:
+            continue
+        r = vlib.validate_one("TraceBubbleSort", path, ["C08"], timeout=1200)
+        if r["tool_error"]:
+            ck.tool_errors.append("%s: %s" % (path, r["tool_error"]))
+            continue
+        ck.cov["states"] += r["distinct"]
+        ck.cov["transitions"] += max(r["states"] - 1, 0)
+        ck.cov["traces_validated_against_impl"] += st["sorts"]
+        if r["done"] != r["total"]:
+            hist, ev = vlib.history_of(path, r["done"] + 1, reset_ev="sort")
+            kind = d.split("-")[-1]
+            ck.violation("sort.behaviour:%s:%s" % ((ev or {}).get("ev", "?"), kind),
+                         "the level swaps of a set_var_order call are not a behaviour of BubbleSort.tla: event %d of %s (%s) "
+                         "cannot be taken" % (r["done"] + 1, os.path.basename(path), json.dumps(ev)),
+                         {"kind": "trace", "module": "TraceBubbleSort", "file": path, "event_index": r["done"] + 1,
+                          "event": ev, "history": hist})
+    ck.cov["bubble_sort_binding"] = total
+    if total["concurrent"] == 0 or total["swaps"] == 0:
+        ck.tool_errors.append("vacuity: no concurrent level sort was recorded (hook events missing?)")
 
 
 def c08(ck, tier, seed):
@@ -131,7 +181,8 @@ def c08(ck, tier, seed):
                       "minimal number of inversions among all completions (n <= 6), maps inverse, every handle keeps "
                       "edge and denotation, C03/C05 invariants on the snapshot after, operations after behave canonically")
     plan = [("reorder", {"kind": k, "seed": seed * 13 + i, "tier": tier}) for i, k in enumerate(BOOL_KINDS)]
-    _bool_suite(ck, ["C08"], plan)
+    files = _bool_suite(ck, ["C08"], plan)
+    _bubble_binding(ck, files)
     # MTBDD and TDD: reorderings with live functions inside the multi-valued histories (TraceMV, mcheck events)
     import chk_mv
     for drv in ["tdd", "mtbdd"]:
@@ -146,7 +197,9 @@ def c08(ck, tier, seed):
     ck.cov["rule"] += ("; hook (feature oxidd_verif): every other chain and 6/40 runs on 9..11 variables force the concurrent "
                        "bubble sort (2..8 workers); the recorded swap begin/end events of every set_var_order call must never "
                        "overlap on a level (same predicate as BubbleSort!NoOverlap)")
-    ck.assumptions += ["swap events are validated for non-overlap and bracketing, not replayed against the sort's internal state"]
+    ck.cov["rule"] += ("; V (TraceBubbleSort): input sequence, swap begin/end events and return of the level sort of every "
+                       "recorded set_var_order call are validated as a behaviour of BubbleSort.tla (critical sections Fetch/AfterSwap "
+                       "as silent steps between the events; sequential sort: exactly the swap sequence of bubble_sort)")
 
 
 def c09(ck, tier, seed):
